@@ -994,6 +994,7 @@ func (v *vc) fieldAddr(fr *frame, st *state, in *ssa.FieldAddr) {
 		ref := v.val(fr, st, in.X)
 		v.nilCheck(fr, st, ref, in)
 		a = &addr{kind: aField, base: ref, st: stt, fi: in.Field, typ: ft}
+		v.guardAccess(fr, st, in, ref, stt)
 	}
 	fr.addrs[in] = a
 }
